@@ -67,7 +67,47 @@ def check_very_deep(case, acc):
     acc.tag("trees_deeper_than_the_recursion_limit")
 
 
+def check_raised_limit(case, acc):
+    """A program that raised the interpreter's recursion limit (sys.setrecursionlimit) after importing the library can
+    iterate trees deeper than the default limit with the depth-first iterators too."""
+    make = nodes.factory(case["cls"])
+    old = sys.getrecursionlimit()
+    depth = int(1.6 * old)
+    sys.setrecursionlimit(8 * old)
+    try:
+        trunk = [make(0)]
+        for i in range(1, depth):
+            node = make(i)
+            node.parent = trunk[-1]
+            trunk.append(node)
+        twig = make(depth)
+        twig.parent = trunk[depth // 2]
+        want_pre = trunk[: depth // 2 + 1] + trunk[depth // 2 + 1:] + [twig]
+        want_post = list(reversed(trunk[depth // 2 + 1:])) + [twig] + list(reversed(trunk[: depth // 2 + 1]))
+        got_pre = list(PreOrderIter(trunk[0]))
+        got_post = list(PostOrderIter(trunk[0]))
+        got_level = list(LevelOrderIter(trunk[0]))
+        groups = list(LevelOrderGroupIter(trunk[0]))
+        zz = list(ZigZagGroupIter(trunk[0]))
+    finally:
+        sys.setrecursionlimit(old)
+    if not refs.same_seq(got_pre, want_pre):
+        raise Violation("preorder", "with the recursion limit raised, a trunk of %d nodes: PreOrderIter yields %d nodes or a wrong order" % (depth, len(got_pre)))
+    if not refs.same_seq(got_post, want_post):
+        raise Violation("postorder", "with the recursion limit raised, a trunk of %d nodes: PostOrderIter yields %d nodes or a wrong order" % (depth, len(got_post)))
+    if len(got_level) != depth + 1 or len(groups) != depth or len(zz) != depth or sum(len(g) for g in groups) != depth + 1:
+        raise Violation("levelorder", "with the recursion limit raised, a trunk of %d nodes: breadth-first iterators yield %d nodes / %d / %d groups" % (depth, len(got_level), len(groups), len(zz)))
+    acc.nontrivial(True)
+    acc.tag("cases_with_a_raised_recursion_limit")
+
+
 def check_case(case, acc):
+    if case.get("kind") == "raised-limit":
+        return check_raised_limit(case, acc)
+    if case.get("kind") == "optimised":
+        from .c15 import check_optimised
+
+        return check_optimised(case, acc)
     if case.get("kind") == "very-deep":
         return check_very_deep(case, acc)
     if case.get("kind") == "deep":
@@ -253,12 +293,22 @@ def plan(tier, seed):
     tasks += [{"engine": "hyp", "examples": examples, "seed": seed * 1000 + i} for i in range(nshards)]
     tasks += [{"engine": "deep", "depth": d, "cls": c} for d in ((270, int(0.6 * sys.getrecursionlimit())) if tier == "quick" else (130, 270, 400, int(0.6 * sys.getrecursionlimit()), int(0.75 * sys.getrecursionlimit()))) for c in ("Node", "SlotLM")]
     tasks += [{"engine": "very-deep", "cls": c} for c in ("Node", "SlotLM")]
+    tasks += [{"engine": "raised-limit", "cls": c} for c in ("Node", "SlotLM")]
+    tasks += [{"engine": "optimised"}]
     return tasks
 
 
 def run_task(task, acc):
-    if task["engine"] == "very-deep":
-        case = {"kind": "very-deep", "cls": task["cls"]}
+    if task["engine"] == "optimised":
+        for flag in ("-O", "-OO"):
+            case = {"kind": "optimised", "flag": flag, "assertions_env": "1"}
+            exc = acc.evaluate(check_case, case, enumerated=False)
+            if exc is not None:
+                acc.add_violation(case, exc)
+                return
+        return
+    if task["engine"] in ("very-deep", "raised-limit"):
+        case = {"kind": task["engine"], "cls": task["cls"]}
         exc = acc.evaluate(check_case, case, enumerated=False)
         if exc is not None:
             acc.add_violation(case, exc)
